@@ -18,11 +18,14 @@ Record quirks := mkQuirks {
   q_memo_nocharge : bool;  (* memo hits are not charged to the expression budget *)
   q_memo_label : bool;     (* the memo key (node, offset) ignores the label scope: a hit skips label bindings and
                               reuses the result of code blocks that read labels *)
-  q_lr_memo_state : bool   (* a finished left-recursive leader stays memoised: entering it again at that offset
+  q_lr_memo_state : bool;  (* a finished left-recursive leader stays memoised: entering it again at that offset
                               returns the result without replaying the state changes it made *)
+  q_memo_expected : bool   (* the memo key ignores whether the evaluation is inside a ! predicate: a hit replays neither
+                              the failures (outside !) nor the successes (inside !) the farthest-failure report is made
+                              of, so a result computed on one side and reused on the other changes the expected set *)
 }.
-Definition faithful : quirks := mkQuirks true true true true true true.
-Definition repaired : quirks := mkQuirks false false false false false false.
+Definition faithful : quirks := mkQuirks true true true true true true true.
+Definition repaired : quirks := mkQuirks false false false false false false false.
 
 (* expressions whose evaluation depends on, or binds labels in, the scope they are evaluated in:
    label bindings, code blocks (they receive the labels in scope), and sequences / recovery operands made of
@@ -444,6 +447,7 @@ Section Step.
     ret res.
 
   Definition parseRuleMemoize (r : rule) : M (val * bool) := fun s =>
+    if negb (q_memo_expected (cQ c)) && maxFailInvert s then parseRule r s else
     match getMemoized (KRule (r_name r)) s with
     | Some res => Ok (rt_v res, rt_b res) (restore (rt_end res) s)
     | None =>
@@ -554,9 +558,10 @@ Section Step.
 
   Definition parseExprWrapBody (e : expr) : M (val * bool) :=
     active0 <- memo_active ;;
-    let active := active0 && (q_memo_label (cQ c) || negb (scope_writes e)) in
+    fun s =>
+    let active := active0 && (q_memo_label (cQ c) || negb (scope_writes e))
+                          && (q_memo_expected (cQ c) || negb (maxFailInvert s)) in
     if active then
-      fun s =>
         match getMemoized (KExpr (node_id e)) s with
         | Some res =>
             if q_memo_nocharge (cQ c) then Ok (rt_v res, rt_b res) (restore (rt_end res) s)
@@ -571,7 +576,7 @@ Section Step.
              modify (fun s' => setMemoized p (KExpr (node_id e)) (mkRt (fst r) (snd r) (pt s')) s') ;;;
              ret r) s
         end
-    else parseExpr e.
+    else parseExpr e s.
 End Step.
 
 Fixpoint parseExprWrap (c : cfg) (fuel : nat) (e : expr) : M (val * bool) :=
